@@ -23,3 +23,32 @@ func VX_C04_colorize() {
 	vxAssert(Colorize(src) == src, "colorize/output-is-the-source-plus-colour-codes")
 	vxAssert(ColorizeEmbellishedText(src) == src, "colorize-embellished/output-is-the-source-plus-colour-codes")
 }
+
+// longer inputs over the alphabets that drive the literal scanners: 3 (quick) / 4 (thorough)
+// bytes inside a string literal over {\\ newline " x u a} and inside a regex literal over {\\ newline / a}
+func VX_C04_positions_literals() {
+	n := 3 + vxTier()
+	src := vxString("src", n)
+	var l *Lexer
+	if vxSplit("regex", 2) == 0 {
+		for i := 0; i < n; i++ {
+			c := src[i]
+			vxAssume(c == '\\' || c == '\n' || c == '"' || c == 'x' || c == 'u' || c == 'a')
+		}
+		for i := 0; i+1 < n; i++ {
+			// backslash-newline is the recorded known finding of VX_C04_positions_modes; it is kept out
+			// here so that any other position defect of the string scanner is still reported
+			vxAssume(!(src[i] == '\\' && src[i+1] == '\n'))
+		}
+		l = New(src)
+		l.pushMode(stringLiteralMode)
+	} else {
+		for i := 0; i < n; i++ {
+			c := src[i]
+			vxAssume(c == '\\' || c == '\n' || c == '/' || c == 'a')
+		}
+		l = New(src)
+		l.pushMode(regexLiteralMode)
+	}
+	vxCheckStream(l, src, n, "literals", true)
+}
